@@ -51,12 +51,14 @@ const (
 	// when the detector comes back after its waiting period: then honest / the equivocation fork
 	c09KTooHighCatchLate
 	c09KTooHighForkLate
+	// primary only: honest below, no block at the height under the top ("not found": a bisection pivot cannot be fetched), unverifiable garbage at the top
+	c09KGarbageTopGap
 	c09NKinds
 )
 
 var c09KindNames = []string{"honest", "equivocation-fork", "garbage", "no-response", "not-found", "too-high-then-catches-up",
 	"bad-block-error", "lunatic-fork", "half-signed", "too-high-stays-behind", "other-error", "forged-pivots(verifiable)", "forged-pivots(garbage)", "too-high-then-serves-fork",
-	"too-high-catches-up-during-the-wait", "too-high-serves-fork-after-the-wait"}
+	"too-high-catches-up-during-the-wait", "too-high-serves-fork-after-the-wait", "garbage-top-with-missing-pivot"}
 
 type c09CCase struct {
 	Pattern int     `json:"pattern"`
@@ -137,13 +139,21 @@ func (p *c09Prov) view(h int64) *c09Desc {
 			return p.w.Blocks[c09FamGarbage][h]
 		}
 		return hon
+	case c09KGarbageTopGap:
+		if h == int64(p.w.H) {
+			return p.w.Blocks[c09FamGarbage][h]
+		}
+		if h == int64(p.w.H)-1 {
+			return nil
+		}
+		return hon
 	}
 	return nil
 }
 
 func (p *c09Prov) pureView() bool {
 	switch p.kind {
-	case c09KHonest, c09KTooHighCatch, c09KTooHighFork, c09KTooHighCatchLate, c09KTooHighForkLate, c09KEquiv, c09KGarbage, c09KLunatic, c09KWeak, c09KEquivPivot, c09KGarbagePivot:
+	case c09KHonest, c09KTooHighCatch, c09KTooHighFork, c09KTooHighCatchLate, c09KTooHighForkLate, c09KGarbageTopGap, c09KEquiv, c09KGarbage, c09KLunatic, c09KWeak, c09KEquivPivot, c09KGarbagePivot:
 		return true
 	}
 	return false
@@ -1113,7 +1123,7 @@ func TestVerifC09Client(t *testing.T) {
 	if thorough {
 		modes = append(modes, modeT{2, 2, 3})
 	}
-	primaries := []int{c09KHonest, c09KEquiv, c09KLunatic, c09KGarbage, c09KEquivPivot, c09KGarbagePivot, c09KNotFound, c09KTooHighBehind, c09KBadBlock}
+	primaries := []int{c09KHonest, c09KEquiv, c09KLunatic, c09KGarbage, c09KEquivPivot, c09KGarbagePivot, c09KNotFound, c09KTooHighBehind, c09KBadBlock, c09KGarbageTopGap}
 	witMenu3 := []int{c09KHonest, c09KEquiv, c09KGarbage, c09KNoResponse, c09KNotFound, c09KTooHighCatch, c09KBadBlock}
 	witMenu := append(append([]int{}, witMenu3...), c09KTooHighBehind, c09KTooHighFork, c09KTooHighCatchLate, c09KTooHighForkLate)
 	if thorough {
